@@ -12,6 +12,6 @@ CONSTANTS
     CloseReleasesBlob = TRUE
     CloseFiles = TRUE
 SPECIFICATION MonSpec
-INVARIANTS HeldLayerServes AllReleasedAndEvictedFreesEverything ClosedMeansGone FailedResolveLeaksNothing BurstSharesOneInstance SampleServes
+INVARIANTS HeldLayerServes AllReleasedAndEvictedFreesEverything ClosedMeansGone NoOpenFilesAfterClose FailedResolveLeaksNothing BurstSharesOneInstance SampleServes
 PROPERTIES ReadWorks ReturnedIsCached NoDuplicateCreation ResolveAgainWorks
 CHECK_DEADLOCK FALSE
